@@ -341,7 +341,8 @@ def run_scenario(sc, observe="all"):
                             tgt = txn if txn is not None else tmk
                             kw = dict(market_version=opt.get("mv"), force=opt.get("force", False))
                             if txn is None:
-                                kw["client"] = cls[self.spec.get("client", 0)]
+                                # an order may be routed through another client of the framework than the strategy's usual one
+                                kw["client"] = cls[opt.get("client", self.spec.get("client", 0))]
                             if opt.get("trade_block"):
                                 # the strategy wrote `with trade:` around its placement; with "raise" its own code fails inside the block after the
                                 # placement (the framework logs the exception of the callback and carries on)
